@@ -79,6 +79,10 @@ CHECKS = {
             "TLC checks the quantile laws (monotone in the level, constant metric, range, enclosure of the mean) on all bounded statistic sequences (Bootstrap.tla); every recorded bootstrap call stream of real MetricFrames (recording metric logging the row-id multiset of each call) is validated by TLC against BootTrace.tla",
             "per trace: the call stream splits into passes of exactly n rows (point estimate, then per resample an overall and a by-group pass), exactly n_boot resamples of n ids from the data, by-group calls hold one group each and partition the resample, resamples repeat rows and differ from each other, and the reported by_group quantiles of count equal the specification's quantile of the resample group sizes exactly; the harness checks list length, type/columns/index, ordering, and equality across two runs for all ten *_ci results, overall count = n, constant metric, positive width and enclosure of the resampling mean",
             "dyadic quantile levels (k/8) so that reported values are exact rationals; the width / enclosure clause is statistical (fixed seeds)", "5/C18"),
+    "C19": (["Lifecycle.tla", "LifeTrace.tla"],
+            "TLC enumerates every call sequence over fit(D1), fit(D2), predict(seed), pickle, clone per estimator kind (Lifecycle.tla: model determined by the last fit, parameters never change, predict is pure); each behaviour is executed on the six estimator classes for 13 configurations and the recorded history is validated by TLC against LifeTrace.tla",
+            "per event: fit returns the estimator itself, constructor parameters reported by get_params unchanged, NotFittedError exactly when unfitted, repeated predict with one seed repeats the answer, and the fingerprint of the predictions after any history equals that of a FRESH identically configured estimator fitted on the same data (hence refit == fresh fit, pickle round trip and clone behave as specified)",
+            "sequence length 3 in quick, 4 in thorough; model equality through an exact fingerprint of predictions on a fixed query set; D8 (nu overwritten by fit) is a recorded known finding", "5/C19"),
 }
 
 PENDING_REASON = "check under construction in this session (DESIGN.md section 5 describes the planned TLA+ spec and binding); not yet claimed"
